@@ -35,6 +35,8 @@ def build(spec):
     est = ["nonparametric", "gaussian", "bootstrap"][i % 3]
     o = dict(estimator=est, feed_n_missing=0, feed_frac_reporting=0.6, B=10, el_n_units=int(rng.integers(50, 130)),
              n_estimands=int(gen.choice(rng, [2, 3, 2])), district=bool(i % 4 == 3))
+    if i % 5 == 1 and est != "bootstrap":
+        o.update(pointer_config=True, n_estimands=3)  # primary-style config: several candidates share one baseline
     el, feed, status, call = cases_mod.build(spec["seed"], PROPERTY, i, o)
     avail = [a for a in el.aggregates_available()]
     k = int(rng.integers(2, len(avail) + 1))
@@ -71,9 +73,11 @@ def subrequests(call, rng):
     c["aggregates"] = [ag[j] for j in rng.permutation(len(ag))]
     subs.append(("shuffled-aggregates", c))
     if len(es) > 1:
-        c = copy.deepcopy(call)
-        c["estimands"] = [es[int(rng.integers(0, len(es)))]]
-        subs.append(("one-estimand", c))
+        pick = int(rng.integers(0, len(es)))
+        for j in ([pick] if len(set(es)) == len(es) and not any(e.startswith("cand_") for e in es) else range(len(es))):
+            c = copy.deepcopy(call)
+            c["estimands"] = [es[j]]
+            subs.append(("one-estimand", c))
         c = copy.deepcopy(call)
         c["estimands"] = list(reversed(es))
         subs.append(("reversed-estimands", c))
